@@ -285,9 +285,9 @@ def exercise(res, pr, rng, docroot, reqs, reference, N, quota, label='', env=Non
         while quota > 0 and srv.alive():
             rnd += 1
             # every instance sees every shape: a mixed round, bursts of one family, related pairs, a mixed round with connection kinds …
-            shape = ['mix', 'big', 'burst', 'pair', 'kinds', 'burst', 'pair', 'burst'][(rnd - 1) % 8] if (pr.tier == 'quick' or rnd <= 8) else \
-                    rng.choice(['mix', 'mix', 'kinds', 'kinds', 'burst', 'burst', 'pair', 'big'])
-            if shape == 'big' and N == 1: shape = 'burst'          # one worker never has two answers under way
+            shape = ['mix', 'big', 'same', 'burst', 'pair', 'kinds', 'same', 'burst', 'pair', 'burst'][(rnd - 1) % 10] if (pr.tier == 'quick' or rnd <= 10) else \
+                    rng.choice(['mix', 'mix', 'kinds', 'kinds', 'burst', 'burst', 'pair', 'big', 'same'])
+            if shape in ('big', 'same') and N == 1: shape = 'burst'          # one worker never has two answers under way
             conns = rng.choice([2, 4, 8, 16, 32, 64])
             delay = 0
             if shape in ('mix', 'kinds'):
@@ -308,6 +308,16 @@ def exercise(res, pr, rng, docroot, reqs, reference, N, quota, label='', env=Non
                 rng.shuffle(idx)
                 m = len(idx)
                 conns = rng.choice([8, 16, 32])
+            elif shape == 'same':
+                # ONE request for a large file - several ranges of it, or all of it - on every connection at the same moment, nothing else
+                # in flight: whatever a worker takes hold of while it reads that file (a lock, a shared handle, a staging copy) is
+                # contended by all the others
+                large = [i for i in range(len(reqs)) if len(expected[i]) > 60000]
+                multi = [i for i in large if b'multipart/byteranges' in expected[i][:2000]]
+                one = rng.choice(multi) if (multi and (rnd % 2 == 1 or rng.chance(2, 3))) else rng.choice(large or list(range(len(reqs))))
+                m = 48 if pr.tier == 'quick' else 96
+                idx = [one] * m
+                conns = m
             elif shape == 'burst':
                 # many requests of ONE family at once (form posts only, ranges of one file only, preflights only, errors only …):
                 # a race in something only that family uses needs two of them in the same microseconds
@@ -331,13 +341,15 @@ def exercise(res, pr, rng, docroot, reqs, reference, N, quota, label='', env=Non
                 holds = [min(6, max(1, 24 // max(1, 17 - N)))] if N > 1 else [3]
                 jr = rng.fork(f'k{N}-{rnd}')
                 jobs = [dict(raw=reqs[i]['raw'], **G.conn_kind(jr, reqs[i]['raw'], len(expected[i]), holds)) for i in idx]
+                if shape == 'same':
+                    for j in jobs: j['conn'] = 'plain'
                 if shape == 'big':
                     for k, j in enumerate(jobs):
                         if len(expected[idx[k]]) > 60000 and j['conn'] == 'plain' and k % 2 == 0: j['conn'] = 'slow'
                 for j in jobs: res.count('connection ' + j['conn'])
                 got = G.run_jobs(srv, jobs, conns=conns, timeout=20)
             res.count('round ' + shape)
-            quota -= m; done += m
+            quota -= (0 if shape == 'same' else m); done += m     # the rounds of one request do not use up the budget of the others
             res.count(f'workers={N}{label}', m)
             for i, g in zip(idx, got):
                 r = reqs[i]
